@@ -1,8 +1,240 @@
-(* C05 proofs *)
-From Coq Require Import List Arith Bool Lia.
-Require Import CCP.Lib.Res CCP.Model.Search CCP.Model.Extract.
+(* C05 — specification-level definitions and proofs about Model/Extract.v.
+   Everything holds for an ARBITRARY forest, regex/group oracle `mg` and conversion oracle. *)
+From Coq Require Import List Arith Bool Lia Sorting.Sorted.
+Require Import CCP.Lib.Res CCP.Model.Search CCP.Model.Extract CCP.Proofs.C04Proofs.
 Import ListNotations.
 
-Lemma re_match_typed_nomatch mg conv dconv draw l u :
-  mg l = NoM -> re_match_typed mg conv dconv draw l u = default_result dconv draw u.
-Proof. intros H. unfold re_match_typed. rewrite H. reflexivity. Qed.
+(* ------------------------------------------------------------------ generic facts about find *)
+Lemma find_none_iff {A} (f : A -> bool) l : find f l = None <-> forall x, In x l -> f x = false.
+Proof.
+  induction l as [|a l IH]; simpl.
+  - split; auto. intros _ x [].
+  - destruct (f a) eqn:E.
+    + split; [discriminate|]. intros H. rewrite (H a (or_introl eq_refl)) in E. discriminate.
+    + rewrite IH. split.
+      * intros H x [<-|Hx]; auto.
+      * intros H x Hx. apply H. right; auto.
+Qed.
+
+Lemma find_some_first {A} (f : A -> bool) l x :
+  find f l = Some x <-> exists pre post, l = pre ++ x :: post /\ f x = true /\ forall y, In y pre -> f y = false.
+Proof.
+  induction l as [|a l IH]; simpl.
+  - split; [discriminate|]. intros (pre & post & E & _). destruct pre; discriminate.
+  - destruct (f a) eqn:E.
+    + split.
+      * intros H. inversion H; subst. exists [], l. repeat split; auto. intros y [].
+      * intros (pre & post & El & Hx & Hpre). destruct pre as [|b pre].
+        -- simpl in El. inversion El; subst. reflexivity.
+        -- simpl in El. inversion El; subst. rewrite (Hpre b (or_introl eq_refl)) in E. discriminate.
+    + rewrite IH. split.
+      * intros (pre & post & El & Hx & Hpre). exists (a :: pre), post. subst l. repeat split; auto.
+        intros y [<-|Hy]; auto.
+      * intros (pre & post & El & Hx & Hpre). destruct pre as [|b pre].
+        -- simpl in El. inversion El; subst. rewrite Hx in E. discriminate.
+        -- simpl in El. inversion El; subst. exists pre, post. repeat split; auto.
+           intros y Hy. apply Hpre. right; auto.
+Qed.
+
+(* sequencing of conversions: the first failure wins *)
+Fixpoint mapM (f : nat -> result nat) (ls : list nat) : result (list nat) :=
+  match ls with
+  | [] => Ok []
+  | x :: t => bind (f x) (fun v => bind (mapM f t) (fun vs => Ok (v :: vs)))
+  end.
+
+Lemma mapM_ok_iff f ls vs : mapM f ls = Ok vs <-> Forall2 (fun x v => f x = Ok v) ls vs.
+Proof.
+  revert vs. induction ls as [|x t IH]; intros vs; simpl.
+  - split.
+    + intros H. inversion H; subst. constructor.
+    + intros H. inversion H; subst. reflexivity.
+  - destruct (f x) as [v|e] eqn:Ef; simpl.
+    + destruct (mapM f t) as [ws|e] eqn:Em; simpl.
+      * split.
+        -- intros H. inversion H; subst. constructor; auto. apply IH. reflexivity.
+        -- intros H. inversion H as [|? ? ? ? Hv Ht]; subst. rewrite Ef in Hv. inversion Hv; subst.
+           apply IH in Ht. inversion Ht; subst. reflexivity.
+      * split; [discriminate|]. intros H. inversion H as [|? ? ? ? Hv Ht]; subst.
+        apply IH in Ht. discriminate.
+    + split; [discriminate|]. intros H. inversion H as [|? ? ? ? Hv Ht]; subst. rewrite Ef in Hv. discriminate.
+Qed.
+
+Section Proofs.
+Variable kids : list (list nat).
+Variable par : nat -> nat.
+Variable mg : nat -> mres.
+Variable conv : nat -> result nat.
+Variable conv_none : result nat.
+Variable dconv : result nat.
+Variable draw : nat.
+
+Ltac clr := try clear par; try clear conv_none; try clear dconv; try clear draw; try clear conv; try clear mg; try clear kids.
+
+Notation is_match := (is_match mg).
+Notation convert := (convert mg conv conv_none).
+Notation default_result := (default_result dconv draw).
+
+(* the lines a call looks at, in the order it looks at them *)
+Definition family (recurse : bool) (l : nat) : list nat := l :: Extract.offspring kids recurse l.
+Definition roots : list nat := filter (fun l => par l =? l) (seq 0 (length kids)).
+
+(* "the requested capture group of the first matching line, converted; else the default" *)
+Definition first_match_result (ls : list nat) (untyped : bool) : result nat :=
+  match find is_match ls with
+  | Some x => convert x
+  | None => default_result untyped
+  end.
+
+Lemma scan_spec ls untyped : scan mg conv conv_none dconv draw ls untyped = first_match_result ls untyped.
+Proof using Type. clr.
+  unfold first_match_result. induction ls as [|a t IH]; simpl; auto.
+  destruct (is_match a); auto.
+Qed.
+
+(* BaseCfgLine.re_match_iter_typed *)
+Lemma iter_first_match l recurse untyped :
+  re_match_iter_typed kids mg conv conv_none dconv draw l recurse untyped =
+  first_match_result (family recurse l) untyped.
+Proof using Type. clr.
+  unfold re_match_iter_typed, family, first_match_result. simpl. destruct (is_match l) eqn:E; auto.
+  rewrite scan_spec. reflexivity.
+Qed.
+
+(* what first_match_result means: the converted group of the FIRST matching line ... *)
+Lemma first_match_some ls untyped pre x post :
+  ls = pre ++ x :: post -> is_match x = true -> (forall y, In y pre -> is_match y = false) ->
+  first_match_result ls untyped = convert x.
+Proof using Type. clr.
+  intros E Hx Hpre. unfold first_match_result.
+  assert (find is_match ls = Some x) as -> by (apply find_some_first; eauto). reflexivity.
+Qed.
+
+(* ... and the default (converted unless untyped_default) iff no line matches *)
+Lemma first_match_none ls untyped :
+  (forall y, In y ls -> is_match y = false) ->
+  first_match_result ls untyped = (if untyped then Ok draw else dconv).
+Proof using Type. clr.
+  intros H. unfold first_match_result. apply find_none_iff in H. rewrite H. reflexivity.
+Qed.
+
+Lemma first_match_cases ls untyped :
+  (exists pre x post, ls = pre ++ x :: post /\ is_match x = true /\ (forall y, In y pre -> is_match y = false)
+                      /\ first_match_result ls untyped = convert x)
+  \/ ((forall y, In y ls -> is_match y = false) /\ first_match_result ls untyped = (if untyped then Ok draw else dconv)).
+Proof using Type. clr.
+  destruct (find is_match ls) as [x|] eqn:E.
+  - left. apply find_some_first in E. destruct E as (pre & post & El & Hx & Hpre).
+    exists pre, x, post. repeat split; auto. eapply first_match_some; eauto.
+  - right. apply find_none_iff in E. split; auto. apply first_match_none; auto.
+Qed.
+
+(* when the requested group participates in the match, the conversion is that of the group text *)
+Lemma convert_group x s : mg x = MGrp s -> convert x = conv s.
+Proof using Type. clr. intros H. unfold Extract.convert. rewrite H. reflexivity. Qed.
+
+(* the family in config order: self, then direct children (recurse=False) ... *)
+Lemma family_direct l : family false l = l :: children kids l.
+Proof using Type. clr. reflexivity. Qed.
+
+(* ... or self, then all descendants in ascending line order (recurse=True, WF forest) *)
+Lemma family_recurse l (Hwf : WF kids) :
+  exists ds, family true l = l :: ds /\ StronglySorted le ds /\ (forall x, In x ds <-> Desc kids l x) /\
+             (forall x, In x ds -> l < x < length kids).
+Proof using Type. clr.
+  exists (all_children kids l). repeat split.
+  - apply all_children_sorted.
+  - apply In_all_children; auto.
+  - apply In_all_children; auto.
+  - apply In_all_children in H; auto. apply (Desc_gt kids Hwf) in H. lia.
+  - apply In_all_children in H; auto. apply (Desc_gt kids Hwf) in H. unfold nlines in H. lia.
+Qed.
+
+(* BaseCfgLine.re_list_iter_typed: every matching line of the family, in that order *)
+Lemma collect_spec ls : collect mg conv conv_none ls = mapM convert (filter is_match ls).
+Proof using Type. clr.
+  induction ls as [|a t IH]; simpl; auto.
+  destruct (is_match a); simpl; rewrite IH; reflexivity.
+Qed.
+
+Lemma list_all_matches l recurse :
+  re_list_iter_typed kids mg conv conv_none l recurse = mapM convert (filter is_match (family recurse l)).
+Proof using Type. clr. unfold re_list_iter_typed. apply collect_spec. Qed.
+
+Lemma list_all_matches_ok l recurse vs :
+  re_list_iter_typed kids mg conv conv_none l recurse = Ok vs <->
+  Forall2 (fun x v => convert x = Ok v) (filter is_match (family recurse l)) vs.
+Proof using Type. clr. rewrite list_all_matches. apply mapM_ok_iff. Qed.
+
+(* CiscoConfParse.re_match_iter_typed: root lines only, in config order *)
+Lemma scan_roots_spec ls untyped :
+  scan_roots par mg conv conv_none dconv draw ls untyped =
+  first_match_result (filter (fun l => par l =? l) ls) untyped.
+Proof using Type. clr.
+  unfold first_match_result. induction ls as [|a t IH]; simpl; auto.
+  destruct (par a =? a); simpl; auto. destruct (is_match a); auto.
+Qed.
+
+Lemma root_first_match untyped :
+  ccp_re_match_iter_typed kids par mg conv conv_none dconv draw untyped = first_match_result roots untyped.
+Proof using Type. clr. unfold ccp_re_match_iter_typed, roots, all_lines, nlines. apply scan_roots_spec. Qed.
+
+Lemma roots_sorted : StronglySorted lt roots.
+Proof using Type. clr. unfold roots. apply filter_sorted, seq_sorted. Qed.
+
+Lemma In_roots l : In l roots <-> l < length kids /\ par l = l.
+Proof using Type. clr. unfold roots. rewrite filter_In, in_seq, Nat.eqb_eq. intuition lia. Qed.
+
+(* BaseCfgLine.re_match_typed: one line *)
+Lemma typed_group l untyped s : mg l = MGrp s -> re_match_typed mg conv dconv draw l untyped = conv s.
+Proof using Type. clr. intros H. unfold re_match_typed. rewrite H. reflexivity. Qed.
+
+Lemma typed_default l untyped : mg l = NoM \/ mg l = MNone ->
+  re_match_typed mg conv dconv draw l untyped = (if untyped then Ok draw else dconv).
+Proof using Type. clr. intros [H|H]; unfold re_match_typed; rewrite H; reflexivity. Qed.
+
+(* on a line without offspring the iterating variant agrees with re_match_typed whenever the group participates *)
+Lemma typed_eq_iter_leaf l recurse untyped :
+  Extract.offspring kids recurse l = [] -> mg l <> MNone ->
+  re_match_iter_typed kids mg conv conv_none dconv draw l recurse untyped = re_match_typed mg conv dconv draw l untyped.
+Proof using Type. clr.
+  intros Ho Hn. unfold re_match_iter_typed, re_match_typed, Extract.is_match, Extract.convert. rewrite Ho.
+  destruct (mg l); simpl; auto. contradiction.
+Qed.
+
+(* BaseCfgLine.re_match: the group text untouched, else the default untouched *)
+Lemma re_match_spec l :
+  re_match mg conv conv_none draw l = (if is_match l then convert l else Ok draw).
+Proof using Type. clr. reflexivity. Qed.
+
+End Proofs.
+
+(* F24 (information): when the requested group does NOT participate, the iterating variant converts
+   None while re_match_typed falls back to the default *)
+Lemma F24_iter_differs_from_typed :
+  exists mg conv cnone dconv draw,
+    re_match_iter_typed [[]] mg conv cnone dconv draw 0 true false <> re_match_typed mg conv dconv draw 0 false.
+Proof.
+  exists (fun _ => MNone), (fun _ => Ok 0), (Ok 7), (Ok 1), 2. vm_compute. discriminate.
+Qed.
+
+(* ---------------- non-vacuity ---------------- *)
+(* ['interface Eth1', ' description a', ' service-policy x', '  class y', '   mtu 1400', ' mtu 1300'] with r'mtu (\d+)':
+   string 0 = '1400' -> value 0, string 1 = '1300' -> value 1, default '-1' -> value 2 *)
+Definition ex5_kids : list (list nat) := [[1; 2; 5]; []; [3]; [4]; []; []].
+Definition ex5_mg (l : nat) : mres := match l with 4 => MGrp 0 | 5 => MGrp 1 | _ => NoM end.
+Definition ex5_conv (s : nat) : result nat := Ok s.
+
+Example ex5_WF : WF ex5_kids.
+Proof.
+  intros p c H. unfold children, ex5_kids in H.
+  do 6 (destruct p as [|p]; [simpl in H; repeat (destruct H as [<-|H]; [unfold nlines; simpl; lia|]); contradiction|]).
+  destruct p; simpl in H; contradiction.
+Qed.
+
+Example ex5_iter :
+  re_match_iter_typed ex5_kids ex5_mg ex5_conv (Ok 9) (Ok 2) 2 0 true false = Ok 0      (* grandchild line 4 comes before line 5 *)
+  /\ re_match_iter_typed ex5_kids ex5_mg ex5_conv (Ok 9) (Ok 2) 2 0 false false = Ok 1  (* direct children only: line 5 *)
+  /\ re_match_iter_typed ex5_kids ex5_mg ex5_conv (Ok 9) (Ok 2) 2 1 true false = Ok 2   (* nothing below line 1: default *)
+  /\ re_list_iter_typed ex5_kids ex5_mg ex5_conv (Ok 9) 0 true = Ok [0; 1].
+Proof. vm_compute. repeat split. Qed.
